@@ -73,7 +73,7 @@ func BuildAction(r *rec.Rec) (of.Action, error) {
 		if fl&2 != 0 {
 			a.Force()
 		}
-		a.Flags |= fl // other bits through the exported field
+		a.Flags |= fl &^ 3 // only the bits without a setter go through the exported field
 		a.Table(r.U8("recirc_table"))
 		switch r.Text("_zone") {
 		case "range":
@@ -208,7 +208,9 @@ func BuildAction(r *rec.Rec) (of.Action, error) {
 		if fl&16 != 0 {
 			a.SetRandom()
 		}
-		a.Flags = fl // combinations the setters refuse, and undefined bits, through the exported field
+		if fl&3 == 3 || fl&24 == 24 || fl>>5 != 0 {
+			a.Flags = fl // combinations the setters refuse, and undefined bits, through the exported field
+		}
 		ApplyNATRanges(a, r)
 		return a, nil
 	}
@@ -303,6 +305,9 @@ func BuildMessage(r *rec.Rec) (util.Message, error) {
 				if vb == nil {
 					vb = common.NewHelloElemVersionBitmap()
 					h.Elements = append(h.Elements, vb)
+				}
+				if bytes.Equal(bm, []byte{0, 0, 0, 0x12}) {
+					continue // what the constructor promises (OpenFlow 1.0 and 1.3): left exactly as constructed
 				}
 				vb.Bitmaps = nil
 				for j := 0; j+4 <= len(bm); j += 4 {
